@@ -214,8 +214,8 @@ def chooseProd (g : Grammar) (dec : Decider) (key : Ty) (alts : List Ty) (ctx : 
       if c.isEmpty then throwE (.foreign "ZeroDivisionError") else
       listGetM c (v % (c.length : Int)).toNat
   | .progressive =>
-      -- unweighted grammars only (every registered symbol has weight 1.0)
-      if !(alts.all g.hasWeight) then throwE (.foreign "KeyError") else
+      -- unweighted grammars only (every registered symbol has weight 1.0; an alternative of a Union that is not a
+      -- grammar node -- a list, a tuple, a refined type -- has no production weight and counts as 1.0 too)
       let mx := g.maxNodeDepth
       let target : Int := if mx = INF then (g.minTreeDepth : Int) * g.recursive.length else mx
       let ws : List Int := alts.map fun x =>
